@@ -2,10 +2,101 @@
 import traceback
 
 
+import os
+
+# Where the trees handed to the code under test come from (environment variant, see runner.ENV_VARIANTS):
+#   ""               freshly parsed in this process
+#   "foreign-pickle" parsed, hashed and pickled in another interpreter with another string-hash seed
+#   "hashcons"       built by hand through the dataclass constructors, equal sub-trees being one shared
+#                    object, literals derived with dataclasses.replace from a template whose value was read
+PROVENANCE = os.environ.get("VERIF_AST_PROVENANCE", "")
+
+
 def parse(text):
     """Parse with a fresh lexer and parser (how the shorthands do it)."""
     from odata_query.grammar import ODataLexer, ODataParser
-    return ODataParser().parse(ODataLexer().tokenize(text))
+    a = ODataParser().parse(ODataLexer().tokenize(text))
+    if PROVENANCE == "foreign-pickle":
+        return _foreign(text)
+    if PROVENANCE == "hashcons":
+        return _hashcons(a, {})
+    return a
+
+
+_helper = None
+_HELPER_SRC = r"""
+import sys, json, pickle, base64, dataclasses
+sys.path.insert(0, sys.argv[1])
+from odata_query.grammar import ODataLexer, ODataParser
+def touch(n):
+    # what any earlier user of the tree may have done: hash it, compare it, read its value
+    if isinstance(n, list):
+        for x in n: touch(x)
+        return
+    if dataclasses.is_dataclass(n):
+        for f in dataclasses.fields(n): touch(getattr(n, f.name))
+        try: hash(n)
+        except TypeError: pass
+        try: n.py_val
+        except Exception: pass
+        n == n
+for line in sys.stdin:
+    text = json.loads(line)
+    try:
+        a = ODataParser().parse(ODataLexer().tokenize(text))
+        touch(a)
+        out = base64.b64encode(pickle.dumps(a)).decode()
+    except Exception as e:
+        out = "!" + type(e).__name__
+    sys.stdout.write(out + "\n"); sys.stdout.flush()
+"""
+
+
+def _foreign(text):
+    global _helper
+    import base64
+    import json
+    import pickle
+    import subprocess
+    import sys
+    from .runner import REPO
+    if _helper is None or _helper.poll() is not None:
+        env = dict(os.environ)
+        env["PYTHONHASHSEED"] = "4242"
+        env.pop("PYTHONPATH", None)
+        _helper = subprocess.Popen([sys.executable, "-c", _HELPER_SRC, REPO], stdin=subprocess.PIPE, stdout=subprocess.PIPE,
+                                   env=env, text=True, bufsize=1)
+    _helper.stdin.write(json.dumps(text) + "\n")
+    _helper.stdin.flush()
+    line = _helper.stdout.readline().strip()
+    if not line or line.startswith("!"):
+        raise RuntimeError("helper interpreter could not parse %r: %s" % (text, line))
+    return pickle.loads(base64.b64decode(line))
+
+
+_TEMPLATES = {"Integer": "7", "Float": "7.5", "String": "tmpl", "Boolean": "true", "Date": "2001-02-03", "Time": "04:05:06",
+              "DateTime": "2001-02-03T04:05:06", "Duration": "P9D", "GUID": "11111111-2222-3333-4444-555555555555",
+              "Geography": "POINT(9 9)"}
+
+
+def _hashcons(n, table):
+    import dataclasses
+    if isinstance(n, list):
+        return [_hashcons(x, table) for x in n]
+    if not dataclasses.is_dataclass(n):
+        return n
+    kw = {f.name: _hashcons(getattr(n, f.name), table) for f in dataclasses.fields(n) if f.init}
+    tmpl = _TEMPLATES.get(type(n).__name__)
+    if tmpl is not None and set(kw) == {"val"} and isinstance(kw["val"], str):
+        t = type(n)(tmpl)
+        try:
+            t.py_val
+        except Exception:
+            pass
+        new = dataclasses.replace(t, val=kw["val"])
+    else:
+        new = type(n)(**kw)
+    return table.setdefault(repr(new), new)
 
 
 _shared = None
